@@ -73,6 +73,147 @@ def marker(name):
         pass
 
 
+
+# ---------------------------------------------------------------- cooperative gate (C14)
+class Gate:
+    """Before every file-system call that touches the shared archive the process announces the call
+    on a pipe and waits for the scheduler's go-ahead: the parent decides the interleaving of real
+    processes at file-system-call granularity.  Patches the os / builtins / sqlite3 entry points of
+    THIS process only; klepto itself is untouched."""
+
+    def __init__(self, base, fd_out, fd_in, sql_commit=True):
+        self.base = os.path.realpath(base)
+        self.out = os.fdopen(fd_out, 'w', buffering=1)
+        self.inp = os.fdopen(fd_in, 'r', buffering=1)
+        self.on = False
+        self.sql_commit = sql_commit
+
+    def mine(self, path):
+        try:
+            if isinstance(path, int):
+                return False
+            p = os.path.realpath(os.fspath(path) if not isinstance(path, bytes) else path.decode())
+        except Exception:
+            return False
+        return p.startswith(self.base)
+
+    def wait(self, what):
+        if not self.on:
+            return
+        self.on = False            # calls made while reporting are not gated
+        try:
+            self.out.write(json.dumps({'gate': what}) + '\n')
+            self.out.flush()
+            self.inp.readline()
+        finally:
+            self.on = True
+
+    def install(self):
+        import builtins
+        import io
+        g = self
+        real_open = builtins.open
+
+        def open_(file, mode='r', *a, **k):
+            if g.mine(file):
+                g.wait('open(%s,%s)' % (os.path.basename(str(file)), mode))
+            return real_open(file, mode, *a, **k)
+        builtins.open = open_
+        io.open = open_
+
+        def wrap1(name, always=False):
+            real = getattr(os, name)
+
+            def f(path, *a, **k):
+                if always or k.get('dir_fd') is not None or g.mine(path):
+                    g.wait('%s(%s)' % (name, os.path.basename(str(path).rstrip('/'))))
+                return real(path, *a, **k)
+            f.__name__ = name
+            setattr(os, name, f)
+
+        def wrap2(name):
+            real = getattr(os, name)
+
+            def f(a1, a2, *a, **k):
+                if g.mine(a1) or g.mine(a2):
+                    g.wait('%s(%s,%s)' % (name, os.path.basename(str(a1)), os.path.basename(str(a2))))
+                return real(a1, a2, *a, **k)
+            f.__name__ = name
+            setattr(os, name, f)
+        for n in ('remove', 'unlink', 'rmdir', 'mkdir', 'listdir', 'scandir'):
+            wrap1(n)
+        for n in ('rename', 'replace'):
+            wrap2(n)
+        # os.open is what shutil.rmtree uses to walk a directory
+        real_osopen = os.open
+
+        def osopen(path, flags, *a, **k):
+            if k.get('dir_fd') is not None or g.mine(path):
+                g.wait('os.open(%s)' % os.path.basename(str(path).rstrip('/')))
+            return real_osopen(path, flags, *a, **k)
+        os.open = osopen
+        import sqlite3
+        real_connect = sqlite3.connect
+
+        class Cur:
+            def __init__(self, c):
+                self._c = c
+
+            def execute(self, sql, *a):
+                g.wait('sql:' + sql.split()[0].lower())
+                return self._c.execute(sql, *a)
+
+            def __getattr__(self, n):
+                return getattr(self._c, n)
+
+            def __iter__(self):
+                return iter(self._c)
+
+        class Conn:
+            def __init__(self, c):
+                self._c = c
+
+            def cursor(self, *a, **k):
+                return Cur(self._c.cursor(*a, **k))
+
+            def execute(self, sql, *a):
+                g.wait('sql:' + sql.split()[0].lower())
+                return self._c.execute(sql, *a)
+
+            def commit(self):
+                if g.sql_commit:
+                    g.wait('sql:commit')
+                return self._c.commit()
+
+            def __getattr__(self, n):
+                return getattr(self._c, n)
+
+        def connect(*a, **k):
+            return Conn(real_connect(*a, **k))
+        sqlite3.connect = connect
+
+    def done(self, res):
+        self.on = False
+        self.out.write(json.dumps({'done': res}) + '\n')
+        self.out.flush()
+
+
+def reader_probe(label, path, key):
+    """everything a concurrent reader does: membership, lookup, length, iteration, bulk load"""
+    a = ctor(label, path)
+    out = {}
+    k = dec(key)
+    out['contains'] = k in a
+    out['get'] = enc(a.get(k, '__absent__'))
+    out['len'] = len(a)
+    out['keys'] = [enc(x) for x in a.keys()]
+    out['items'] = enc_items(dict(a.items()))
+    c = ctor(label, path, cached=True)
+    c.load()
+    out['load'] = enc_items(dict(c.items()))
+    return out
+
+
 def perform(label, path, action):
     kind = action[0]
     if kind == 'open':                      # merely opening an existing archive
@@ -93,6 +234,16 @@ def perform(label, path, action):
         a = ctor(label, path, cached=True)
         a.load()
         return enc_items(dict(a.items()))
+    if kind == 'len':
+        return len(ctor(label, path))
+    if kind == 'keys':
+        return [enc(k) for k in ctor(label, path).keys()]
+    if kind == 'items':
+        return enc_items(dict(ctor(label, path).items()))
+    if kind == 'contains':
+        return dec(action[1]) in ctor(label, path)
+    if kind == 'probe':
+        return reader_probe(label, path, action[1])
     if kind == 'lookup':
         a = ctor(label, path)
         k = dec(action[1])
@@ -145,12 +296,22 @@ def main():
     import sqlite3, dill, json as _j, shutil, tempfile, random
     import dill.source
     import klepto._pickle
+    gate = None
+    if spec.get('gate'):
+        gate = Gate(spec['gate']['base'], spec['gate']['out'], spec['gate']['in'], spec['gate'].get('sql_commit', True))
+        gate.install()
+        gate.on = True
+        gate.wait('start')
     if spec.get('mark'):
         marker('begin')
     try:
         res['value'] = perform(spec['config'], spec['path'], spec['action'])
     except BaseException as e:
-        res = {'ok': False, 'error': '%s: %s' % (type(e).__name__, e)}
+        import traceback
+        res = {'ok': False, 'error': '%s: %s' % (type(e).__name__, e), 'where': traceback.format_exc()[-600:]}
+    if gate:
+        gate.done(res)
+        return 0
     if spec.get('mark'):
         marker('end')
     if spec.get('out'):
